@@ -63,6 +63,7 @@ func main() {
 	flag.Parse()
 	debug.SetGCPercent(200)
 	o := &output{Package: *pkgPat}
+	var cleanup func()
 	emit := func() {
 		b, _ := json.MarshalIndent(o, "", " ")
 		if *out == "" {
@@ -75,6 +76,9 @@ func main() {
 	fail := func(msg string) {
 		o.Error = msg
 		emit()
+		if cleanup != nil {
+			cleanup()
+		}
 		fmt.Fprintln(os.Stderr, "gosmt:", msg)
 		os.Exit(2)
 	}
@@ -119,12 +123,26 @@ func main() {
 			overlay[filepath.Join(absDir, "lib", "verifrt", filepath.Base(f))] = b
 		}
 	}
+	// never let the go command rewrite /repo/go.mod or go.sum: work on a scratch copy
+	modDir, err := os.MkdirTemp("", "gosmt-mod-")
+	if err != nil {
+		fail(err.Error())
+	}
+	defer os.RemoveAll(modDir)
+	cleanup = func() { os.RemoveAll(modDir) }
+	for _, f := range []string{"go.mod", "go.sum"} {
+		b, err := os.ReadFile(filepath.Join(absDir, f))
+		if err != nil {
+			fail(err.Error())
+		}
+		os.WriteFile(filepath.Join(modDir, f), b, 0o644)
+	}
 	t0 := time.Now()
 	cfg := &packages.Config{
 		Mode:       packages.LoadAllSyntax,
 		Dir:        absDir,
 		Overlay:    overlay,
-		BuildFlags: []string{"-tags=" + *tags},
+		BuildFlags: []string{"-tags=" + *tags, "-modfile=" + filepath.Join(modDir, "go.mod")},
 		Env:        append(os.Environ(), "GOFLAGS=-mod=mod", "GOPROXY=off", "GOTOOLCHAIN=local"),
 	}
 	pkgs, err := packages.Load(cfg, *pkgPat)
